@@ -2,6 +2,7 @@ package hx
 
 import (
 	"bytes"
+	"context"
 	"fmt"
 	"net/http"
 	"net/http/httptest"
@@ -35,6 +36,10 @@ type Req struct {
 	XAccept string // X-VGI-Accept-Encoding
 }
 
+// RequestContext, when set, supplies the context of every simulated request
+// (what middleware in front of the handler would have put there).
+var RequestContext func(r *http.Request) context.Context
+
 // Do calls h.ServeHTTP the way net/http would: a panic that escapes is
 // recovered and recorded (the real server would abort the connection and the
 // client would see no response).
@@ -56,6 +61,9 @@ func Do(h http.Handler, rq Req) (resp *Resp) {
 	}
 	if rq.XAccept != "" {
 		r.Header.Set("X-VGI-Accept-Encoding", rq.XAccept)
+	}
+	if RequestContext != nil {
+		r = r.WithContext(RequestContext(r))
 	}
 	w := httptest.NewRecorder()
 	resp = &Resp{}
